@@ -2,7 +2,8 @@
 From Coq Require Import List ZArith Bool.
 From C33 Require Import C15.Model C15.Spec C15.Proofs C15.ProofsRefute
   C15.ModelReceipt C15.ModelCoins C15.ModelFlat
-  C15.ProofsReceipt C15.ProofsReceipt2 C15.ProofsReceipt3 C15.ProofsCoins C15.ProofsFlat.
+  C15.ProofsReceipt C15.ProofsReceipt2 C15.ProofsReceipt3 C15.ProofsCoins C15.ProofsFlat
+  C15.ProofsFlatSim C15.ProofsFlatSim2.
 Import ListNotations.
 Open Scope Z_scope.
 
@@ -115,3 +116,12 @@ Theorem C15_ledgers_independent : forall l' miners h w,
   (forall q, fanswer l' (frun miners w h) q = fanswer l' w q).
 Proof. exact history_independent. Qed.
 Print Assumptions C15_ledgers_independent.
+
+Theorem C15_flat_refines_ledger : forall l miners ops s w,
+  flat_rel l s w -> keys_ok s = true -> forallb op_keys_ok ops = true ->
+  results miners s ops = fresults l miners w ops /\
+  flat_rel l (run miners s ops) (frun miners w (map (fun o => (l, o)) ops)) /\
+  (forall q, key_ok (qkey q) = true ->
+     fanswer l (frun miners w (map (fun o => (l, o)) ops)) q = answer (run miners s ops) q).
+Proof. exact frun_sim. Qed.
+Print Assumptions C15_flat_refines_ledger.
